@@ -263,16 +263,13 @@ func convertAndCompare(c *Case, o *osm.OSM, unrelated map[osm.FeatureID]bool, la
 	if err != nil {
 		return harness.Failf("C16/convert-error", "%s: Convert failed: %v", label, err)
 	}
-	var mp orb.MultiPolygon
-	found := 0
+	var mps []orb.MultiPolygon
 	for _, f := range fc.Features {
 		switch g := f.Geometry.(type) {
 		case orb.Polygon:
-			mp = orb.MultiPolygon{g}
-			found++
+			mps = append(mps, orb.MultiPolygon{g})
 		case orb.MultiPolygon:
-			mp = g
-			found++
+			mps = append(mps, g)
 		default:
 			id, _ := f.ID.(string)
 			fid, err := osm.ParseFeatureID(id)
@@ -281,9 +278,18 @@ func convertAndCompare(c *Case, o *osm.OSM, unrelated map[osm.FeatureID]bool, la
 			}
 		}
 	}
-	if found != 1 {
-		return harness.Failf("C16/feature-count", "%s: %d polygon features for one multipolygon relation (total features %d)", label, found, len(fc.Features))
+	if len(mps) != len(o.Relations) {
+		return harness.Failf("C16/feature-count", "%s: %d polygon features for %d multipolygon relation(s) (total features %d)", label, len(mps), len(o.Relations), len(fc.Features))
 	}
+	for _, mp := range mps {
+		if err := compareMP(c, mp, label); err != nil {
+			return err
+		}
+	}
+	return nil
+}
+
+func compareMP(c *Case, mp orb.MultiPolygon, label string) error {
 	var got []string
 	for _, pg := range mp {
 		var hs []string
@@ -339,10 +345,73 @@ func check(c Case) error {
 		}
 		annotated = rel.Members
 	}
+	// a relation history annotated in one call: between the two relation
+	// versions every member way got a second version that runs the other way
+	// round its ring, so version 2 of the relation expects the opposite marks
+	if c.RelType == "multipolygon" || c.RelType == "boundary" {
+		o, rel1, wantOrient, _ := c.build(1)
+		ds := &osm.HistoryDatasource{Ways: map[osm.WayID]osm.Ways{}}
+		for _, w := range o.Ways {
+			w2 := *w
+			w2.Version = 2
+			w2.Timestamp = rel1.Timestamp.Add(time.Hour)
+			w2.Nodes = make(osm.WayNodes, len(w.Nodes))
+			for i := range w.Nodes {
+				w2.Nodes[len(w.Nodes)-1-i] = w.Nodes[i]
+			}
+			ds.Ways[w.ID] = osm.Ways{w, &w2}
+		}
+		r2 := *rel1
+		r2.Version = 2
+		r2.Timestamp = rel1.Timestamp.Add(2 * time.Hour)
+		r2.Members = append(osm.Members(nil), rel1.Members...)
+		rel2 := &r2
+		if err := annotate.Relations(context.Background(), osm.Relations{rel1, rel2}, ds, annotate.IgnoreMissingChildren(true)); err != nil {
+			return harness.Failf("C16/annotate-error", "annotate.Relations on a two-version history failed: %v", err)
+		}
+		for vi, rel := range []*osm.Relation{rel1, rel2} {
+			for _, m := range rel.Members {
+				if m.Type != osm.TypeWay || (m.Role != "inner" && m.Role != "outer") {
+					continue
+				}
+				want := wantOrient[m.Ref]
+				if vi == 1 {
+					want = -want
+				}
+				if m.Version != vi+1 {
+					return harness.Failf("C16/annotate-history", "relation v%d: way member %d annotated with version %d, current was %d", vi+1, m.Ref, m.Version, vi+1)
+				}
+				if m.Orientation != want {
+					return harness.Failf("C16/orientation-annotation", "relation history annotated in one call: relation v%d, way member %d (role %s, way version %d) runs %v around its ring but is annotated %v", vi+1, m.Ref, m.Role, vi+1, want, m.Orientation)
+				}
+			}
+		}
+	}
 	for mode := 0; mode < 3; mode++ {
-		for orient := 0; orient < 3; orient++ {
+		for orient := 0; orient < 5; orient++ {
 			o, rel, wantOrient, unrelated := c.build(mode)
 			switch orient {
+			case 3:
+				// only some members carry the (ground-truth) annotation
+				for i := range rel.Members {
+					if rel.Members[i].Type == osm.TypeWay && (i+c.NodeShuffle)%3 != 0 {
+						rel.Members[i].Orientation = wantOrient[rel.Members[i].Ref]
+					}
+				}
+			case 4:
+				// a second relation over the same member ways in the same data
+				// set: members in reverse order, annotated; the first one is not
+				rel2 := *rel
+				rel2.ID = 2
+				rel2.Members = nil
+				for i := len(rel.Members) - 1; i >= 0; i-- {
+					m := rel.Members[i]
+					if m.Type == osm.TypeWay {
+						m.Orientation = wantOrient[m.Ref]
+					}
+					rel2.Members = append(rel2.Members, m)
+				}
+				o.Relations = append(o.Relations, &rel2)
 			case 1:
 				for i := range rel.Members {
 					rel.Members[i].Orientation = annotated[i].Orientation
@@ -354,7 +423,7 @@ func check(c Case) error {
 					}
 				}
 			}
-			label := fmt.Sprintf("coords-source=%s orientation-mode=%d", [...]string{"node-objects", "way-nodes", "mixed-per-node"}[mode], orient)
+			label := fmt.Sprintf("coords-source=%s orientation-mode=%s", [...]string{"node-objects", "way-nodes", "mixed-per-node"}[mode], [...]string{"none", "from-annotate", "ground-truth", "ground-truth-on-some-members", "two-relations-sharing-the-ways"}[orient])
 			if err := convertAndCompare(&c, o, unrelated, label); err != nil {
 				return err
 			}
@@ -522,7 +591,7 @@ func genCase(t *rapid.T) Case {
 func TestMultipolygon(t *testing.T) {
 	harness.Run(t, harness.Spec[Case]{
 		Name: "multipolygon", N: 5000,
-		Rule:     "ground truth: 1..4 disjoint simple outer rings (radially jittered polygons on a 1e-5 grid, or - one case in four each - rectangles on integer coordinates with extra edge vertices so that hole vertices share latitudes with outer vertices, and the same shapes in units of the 1e-7 degree coordinate step placed at San Francisco / Berlin / (179.9,85) / (-70,-33) / next to the origin, so that holes are 1-3 steps across and neighbouring vertices one step apart) with 0..3 disjoint holes strictly inside each; every ring cut at an arbitrary vertex subset, pieces independently reversed, members permuted, unrelated node/relation/other-role way members interleaved, node list rotated/reversed; type multipolygon or boundary; each case is converted in all 9 combinations of {coordinates from node objects, from annotated way nodes, mixed per way node with node objects present} x {no orientation annotations, annotations produced by annotate.Relations, ground-truth annotations}; oracle = exactly one polygon feature whose polygons equal the ground truth as a set of (outer, set of holes) with rings compared as canonical cyclic sequences, closed rings, CCW outers / CW inners by shoelace, and Member.Orientation after annotate.Relations == direction of the piece; non-trivial = some ring cut into >=2 pieces with a reversed piece",
+		Rule:     "ground truth: 1..4 disjoint simple outer rings (radially jittered polygons on a 1e-5 grid, or - one case in four each - rectangles on integer coordinates with extra edge vertices so that hole vertices share latitudes with outer vertices, and the same shapes in units of the 1e-7 degree coordinate step placed at San Francisco / Berlin / (179.9,85) / (-70,-33) / next to the origin, so that holes are 1-3 steps across and neighbouring vertices one step apart) with 0..3 disjoint holes strictly inside each; every ring cut at an arbitrary vertex subset, pieces independently reversed, members permuted, unrelated node/relation/other-role way members interleaved, node list rotated/reversed; type multipolygon or boundary; each case is converted in all 15 combinations of {coordinates from node objects, from annotated way nodes, mixed per way node with node objects present} x {no orientation annotations, annotations produced by annotate.Relations, ground-truth annotations, ground-truth annotations on two members in three only, two relations over the same ways in one data set - the second with reversed member order and annotations -}; a two-version relation history whose member ways all change direction between the versions is annotated in one call (each version expects the marks of its own way versions); oracle = exactly one polygon feature whose polygons equal the ground truth as a set of (outer, set of holes) with rings compared as canonical cyclic sequences, closed rings, CCW outers / CW inners by shoelace, and Member.Orientation after annotate.Relations == direction of the piece; non-trivial = some ring cut into >=2 pieces with a reversed piece",
 		Gen:      genCase,
 		Check:    check,
 		Classify: classify,
